@@ -89,6 +89,18 @@ func Load(dir string, goos string) (*Prog, error) {
 	overlay := map[string][]byte{}
 	var normLog []string
 	if os.Getenv("SCIONCHECK_NOINLINE") == "" && !hasErrors(pkgs) {
+		// first: pinned names for the variables of pinned functions
+		if changed, log := RenameBackOverlay(pkgs, overlay); len(changed) > 0 {
+			cfg2 := *cfg
+			cfg2.Overlay = changed
+			pkgs2, err2 := packages.Load(&cfg2, "./...")
+			if err2 != nil || hasErrors(pkgs2) {
+				normLog = append(normLog, fmt.Sprintf("renaming locals back discarded: rewritten source does not type-check (%s)", firstError(pkgs2, err2)))
+			} else {
+				overlay, pkgs = changed, pkgs2
+				normLog = append(normLog, log...)
+			}
+		}
 		for round := 0; round < 4; round++ {
 			changed, log := NormalizeOverlay(pkgs, overlay)
 			if len(changed) == 0 {
